@@ -111,13 +111,16 @@ CHECKS = {
                      "calling module; PagesTrace keeps the owner map and rejects a write / free by a non-owner, and compares what every read "
                      "interface returns with the content computed from the step parameters.",
                 note="the defect the model predicted (node 512 written into the page after the table) was confirmed and repaired (fix e4d74e8)"),
-    "C31": dict(ref="5 C31", tech="TLA+ trace validation (KnnTrace: the abstract nearest-neighbour oracle KnnAbs with exact integer arithmetic) of recorded vector searches",
+    "C31": dict(ref="5 C31", tech="TLC model checking of Hnsw.tla (the index as implemented) + its behaviours replayed on the real index through the level hook + TLA+ trace validation (KnnTrace oracle, exact integer arithmetic) of every recorded search",
                 text="Generated vector sets with small integer coordinates (ties, duplicates, re-insertions, deleted nodes, vectors written by dropped "
                      "transactions) are inserted through transactions with link counts M in {2,3,4,16}; every search_vector answer is judged by TLC: at "
                      "most k, distinct, live nodes with a committed vector, exact Euclidean distance (big-integer comparison of the f32 mantissa "
                      "squared against the exact squared distance), non-decreasing order, exactly the k nearest while the index holds <= 2M+1 vectors, "
-                     "and the same answer when the search is repeated after compaction or reopen (indexes of 900 vectors force root splits).",
-                note="three defects found and repaired (stale roots after reopen, deleted nodes returned, vectors of dropped transactions); KF-26 = KF-01's effect on search"),
+                     "and the same answer when the search is repeated after compaction or reopen (indexes of 900 vectors force root splits).  "
+                     "Hnsw.tla transcribes insert / search_layer / select_neighbors / back links; TLC checks soundness and exactness below 2M+1 "
+                     "vectors for all insertion orders, levels and re-insertions of 4-5 nodes, the two pinned variants must fail, and simulated "
+                     "behaviours are replayed on the engine with the model's levels and compared with the model's own answers.",
+                note="four defects found and repaired (stale roots after reopen, deleted nodes returned, vectors of dropped transactions, re-insertion cutting nodes off - the last one found by TLC on Hnsw.tla); KF-26 = KF-01's effect on search"),
     "C26": dict(ref="5 C26", tech="TLC model checking of BTree.tla + TLA+ trace validation (BTreeTrace) of the real B-tree",
                 text="BTree.tla transcribes insert/split/delete/cursor with page capacity 2; TLC checks scan/lookup/delete against the "
                      "sorted-multimap ghost exhaustively for unique keys, and reproduces the equal-keys defect whose counterexample is "
